@@ -19,6 +19,9 @@
 //
 // Every case ends with a drain (everything delivered, sections finished), observations of every
 // replica, and optionally a solo phase: one writer retries alone from the quiet state.
+// During a case a replica is observed (GetState: version + committed value) whenever it may have
+// installed a version: after a Commit reached it and after it was handed a reject reply (a proposer
+// that has fallen behind catches up from the version and value in the reply).
 //
 // No hook in /repo is needed: LocalReplicaHandle's unexported field and the state projection are
 // reached by reflection, guarded by type checks; if the fields change shape the projection is
@@ -104,6 +107,7 @@ type kase struct {
 	Solo    int             `json:"solo"`     // writer for the solo phase (0 = none, -1 = seeded choice)
 	SoloTry int             `json:"solotries"`
 	VAbort  float64         `json:"vabort"`   // probability weight of voluntary aborts in free mode
+	Lag     int             `json:"lag"`      // free mode: requests to this replica are delivered late (it falls behind)
 }
 
 // a broadcast goroutine of the library that got an error for an Abort/Commit request sleeps one second
@@ -679,6 +683,10 @@ func (w *world) deliver(p *pend, kind string) bool {
 		return false
 	}
 	w.logState(p.to)
+	if p.typ == "Commit" {
+		// the replica may have installed a version: what does it report for it now?
+		w.observe(w.nodes[p.to])
+	}
 	return true
 }
 
@@ -705,6 +713,10 @@ func (w *world) release(p *pend, how string) bool {
 	}
 	ok := w.settle()
 	w.logState(p.from)
+	if ok && res == "rej" {
+		// a proposer that has fallen behind catches up from a reject reply: what does it report now?
+		w.observe(w.nodes[p.from])
+	}
 	return ok
 }
 
@@ -744,6 +756,9 @@ func (w *world) duplicate(p *pend) bool {
 		return false
 	}
 	w.logState(p.to)
+	if p.typ == "Commit" {
+		w.observe(w.nodes[p.to])
+	}
 	return true
 }
 
@@ -915,7 +930,11 @@ func (w *world) runFree() bool {
 				cs = append(cs, choice{3, func() bool { w.record("write", n.id); w.doWrite(n); w.logState(n.id); return true }})
 				cs = append(cs, choice{k.VAbort, func() bool { w.record("abort", n.id); w.doAbort(n); return true }})
 			case "insect":
-				cs = append(cs, choice{2, func() bool { w.record("pcstart", n.id); w.doPCStart(n); return true }})
+				wt := 2.0
+				if k.Lag != 0 && n.id != k.Lag {
+					wt = 0.7 // the others stay a while in their sections with an uncommitted write
+				}
+				cs = append(cs, choice{wt, func() bool { w.record("pcstart", n.id); w.doPCStart(n); return true }})
 				cs = append(cs, choice{k.VAbort, func() bool { w.record("abort", n.id); w.doAbort(n); return true }})
 			case "failed":
 				cs = append(cs, choice{3, func() bool { w.record("abort", n.id); w.doAbort(n); return true }})
@@ -928,7 +947,11 @@ func (w *world) runFree() bool {
 		}
 		for _, p := range w.snapshotPends(stGate) {
 			p := p
-			cs = append(cs, choice{2, func() bool {
+			wt := 2.0
+			if k.Lag != 0 && (p.to == k.Lag || p.from == k.Lag) {
+				wt = 0.12 // this replica hears from the others late: it falls behind and its own requests become stale
+			}
+			cs = append(cs, choice{wt, func() bool {
 				ok := w.deliver(p, "dlv")
 				w.record(append(append([]interface{}{"dlv"}, w.tag(p)...), resOf(p))...)
 				return ok
